@@ -107,7 +107,7 @@ def load_known():
 
 class Runner:
     def __init__(self, pid, tier, jobs, seed=0, parallel=None, keep=False, level='model_checking',
-                 extra_cov=None, assumptions=()):
+                 extra_cov=None, assumptions=(), extra_results=()):
         self.pid = pid
         self.tier = tier
         self.jobs = jobs
@@ -117,6 +117,7 @@ class Runner:
         self.level = level
         self.extra_cov = extra_cov or {}
         self.assumptions = list(assumptions)
+        self.extra_results = list(extra_results)
         self.work = os.path.join(os.environ.get('VERIF_WORK', os.path.join(VERIF, '.work')), pid)
         self.replay_dir = os.path.join(VERIF, 'replay_out', pid)
         self.known = load_known()
@@ -523,6 +524,24 @@ class Runner:
             harness_recs.append(hrec)
             if rw and rw.get('witness_reached') and len(samples) < 40:
                 samples.append({'harness': j.name, 'reached': rw['witness_reached'][:6], 'bounds': j.bounds})
+        for er in self.extra_results:
+            print('[%s] %-28s %-8s queries=%s  %s' % (self.pid, er['name'], er['verdict'], er.get('queries'), er.get('detail', '')))
+            evaluations += er.get('queries', 0)
+            if er['verdict'] == 'pass' and er.get('queries', 0) > 0:
+                nontrivial += 1
+                if er.get('sample'):
+                    samples.append({'harness': er['name'], 'sample': er['sample']})
+            elif er['verdict'] == 'fail':
+                os.makedirs(self.replay_dir, exist_ok=True)
+                rp = os.path.join(self.replay_dir, er['name'] + '.json')
+                with open(rp, 'w') as f:
+                    json.dump({'property': self.pid, 'job': er['name'], 'tier': self.tier, 'failures': er['failures']}, f, indent=1)
+                for fr in er['failures'][:8]:
+                    print('      FAILED %s: %s' % (fr['property'], fr['description']))
+                violations.append((Job(er['name'], ''), rp))
+            else:
+                inconclusive.append('%s: %s' % (er['name'], er.get('detail')))
+            harness_recs.append({'name': er['name'], 'verdict': er['verdict'], 'obligations': er.get('queries', 0), 'detail': er.get('detail'), 'wall_s': er.get('wall_s'), 'stats': {}})
         # known findings printed once each
         seen = set()
         for k, kl in known_lines:
